@@ -958,13 +958,14 @@ func ruleRenumberingComplete(c *Ctx, rule string) {
 // Lexer worlds with the state AND the character fixed.
 
 type lexerAnchors struct {
-	fn       *ssa.Function
-	statePhi *ssa.Phi
-	readCall *ssa.Call
-	names    map[string]string // value -> name
-	byName   map[string]constant.Value
-	loop     map[*ssa.BasicBlock]bool
-	err      string
+	lastWorld *World // the world of the latest call of world(), for rules that need to look at what stayed undecided
+	fn        *ssa.Function
+	statePhi  *ssa.Phi
+	readCall  *ssa.Call
+	names     map[string]string // value -> name
+	byName    map[string]constant.Value
+	loop      map[*ssa.BasicBlock]bool
+	err       string
 }
 
 func (c *Ctx) lexerAnchors() *lexerAnchors {
@@ -1052,6 +1053,7 @@ func (la *lexerAnchors) world(state constant.Value, ch rune) (next map[string]bo
 		return wLat{}, false
 	}
 	w.Run()
+	la.lastWorld = w
 	next = map[string]bool{}
 	head := la.statePhi.Block()
 	for i, p := range head.Preds {
